@@ -29,10 +29,13 @@ Types == 0..(N - 1)
 Modes == {"plain", "optional", "nullable", "array"}
 
 Targets(t) == IF Ring THEN {(t + 1) % N, 0} ELSE Types
-Refs(t)    == {[k |-> "ref", t |-> x, u |-> x, m |-> m] : x \in Targets(t), m \in ModesUsed}
+Refs(t)    == {[k |-> "ref", t |-> x, u |-> x, m |-> m] : x \in Targets(t), m \in ModesUsed \cap Modes}
 Choices(t) == IF Ring THEN {} ELSE {[k |-> "choice", t |-> pr[1], u |-> pr[2], m |-> "plain"] : pr \in {q \in Types \X Types : q[1] < q[2]}}
 Scalar     == [k |-> "scalar", t |-> 0, u |-> 0, m |-> "plain"]
-Kinds(t)   == {Scalar} \cup Refs(t) \cup Choices(t)
+\* an optional key-shortcut property `@k: @x // {optional: true}` written next to a mandatory literal property whose
+\* key is spelled the same ("@k": 1): the two keys are different things, the link stays optional
+ScOpts(t)  == IF "shortcut" \in ModesUsed THEN {[k |-> "scopt", t |-> x, u |-> x, m |-> "optional"] : x \in Targets(t)} ELSE {}
+Kinds(t)   == {Scalar} \cup Refs(t) \cup Choices(t) \cup ScOpts(t)
 
 \* property sets of at most n kinds, built constructively (SUBSET of a 16-element set is cheap, of 22 is not)
 PropSets(t, n) == {{}} \cup {{p} : p \in Kinds(t)} \cup
